@@ -414,6 +414,14 @@ class HttpProxyPlugin(HttpProtocolHandlerPlugin):
 
     # Can return None to tear down connection
     def on_client_data(self, raw: memoryview) -> None:
+        # Requests packed into a single read are handled one after
+        # the other, not by recursion (depth is bounded otherwise).
+        remaining: Optional[memoryview] = raw
+        while remaining is not None:
+            remaining = self._on_client_data(remaining)
+
+    def _on_client_data(self, raw: memoryview) -> Optional[memoryview]:
+        """Returns bytes which followed a pipelined request, if any."""
         # For scenarios when an upstream connection was never established,
         # let plugin do whatever they wish to.  These are special scenarios
         # where plugins are trying to do something magical.  Within the core
@@ -428,7 +436,7 @@ class HttpProxyPlugin(HttpProtocolHandlerPlugin):
             for plugin in self.plugins.values():
                 o = plugin.handle_client_data(raw)
                 if o is None:
-                    return
+                    return None
                 raw = o
         elif self.upstream and not self.upstream.closed:
             # For http proxy requests, handle pipeline case.
@@ -444,7 +452,7 @@ class HttpProxyPlugin(HttpProtocolHandlerPlugin):
                     # upgrade request. Incoming client data now
                     # must be treated as WebSocket protocol packets.
                     self.upstream.queue(raw)
-                    return
+                    return None
                 if self.pipeline_request is None:
                     # For pipeline requests, we never
                     # want to use --enable-proxy-protocol flag
@@ -467,9 +475,7 @@ class HttpProxyPlugin(HttpProtocolHandlerPlugin):
                             # which follow need a fresh parser.
                             remaining = self.pipeline_request.buffer
                             self.pipeline_request = None
-                            if remaining is not None:
-                                self.on_client_data(remaining)
-                            return
+                            return remaining
                         self.pipeline_request = r
                     assert self.pipeline_request is not None
                     # TODO(abhinavsingh): Remove memoryview wrapping here after
@@ -487,12 +493,12 @@ class HttpProxyPlugin(HttpProtocolHandlerPlugin):
                     self.pipeline_request.buffer = None
                     if not self.pipeline_request.is_connection_upgrade:
                         self.pipeline_request = None
-                    if remaining is not None:
-                        self.on_client_data(remaining)
+                    return remaining
             # For scenarios where we cannot peek into the data,
             # simply queue for upstream server.
             else:
                 self.upstream.queue(raw)
+        return None
 
     @property
     def _tls_intercept_enabled(self) -> bool:
